@@ -557,6 +557,12 @@ func (fv *FuncVerifier) isLocalOnly(v types.Object) bool {
 	}
 	ok := true
 	var stack []ast.Node
+	// the uses that matter are those in the function that DECLARES v: the function under verification, or a helper
+	// executed inline (whose variables have no uses at all in the caller's text)
+	if v.Pos() < fv.fn.Decl.Pos() || v.Pos() >= fv.fn.Decl.End() {
+		fv.localOnly[v] = false
+		return false
+	}
 	ast.Inspect(fv.fn.Decl, func(n ast.Node) bool {
 		if n == nil {
 			stack = stack[:len(stack)-1]
